@@ -37,6 +37,11 @@ def showO {α} (f : α → String) : Outcome α → String
   | .refuse c => "refuse:" ++ c
   | .fault w => "fault:" ++ w
 
+def showC {α} (f : α → String) : Outcome α → String
+  | .ok a => "ok:" ++ f a
+  | .refuse c => "refuse:" ++ c
+  | .fault w => "fault:" ++ w
+
 def showBool (b : Bool) : String := if b then "true" else "false"
 
 def coeffStr (c : Dil.Coeff) : String := toString c.toInt
@@ -125,7 +130,7 @@ def step (st : DState) (line : String) : DState × String :=
     match lookupK st.xkeys id with
     | none => (st, "bad-op")
     | some k =>
-      (st, s!"ok idx={k.index} h={k.h} pk={hx k.pk} seed={hx k.seed} ext={hx k.extendedSeed} addr={showO hx (xmssAddressFromPK shake256 k.pk)} mn={showO hx (Mnemonic.binToMnemonic k.extendedSeed)}")
+      (st, s!"ok idx={k.index} h={k.h} pk={hx k.pk} seed={hx k.seed} ext={hx k.extendedSeed} addr={showC hx (xmssAddressFromPK shake256 k.pk)} mn={showC hx (Mnemonic.binToMnemonic k.extendedSeed)}")
   | ["x.snap", id] =>
     match lookupK st.xkeys id with
     | none => (st, "bad-op")
